@@ -117,6 +117,7 @@ func verifStartFaultyBackend() (addr string, stop func()) {
 // is injected among them.  Workers are goroutines of this process: a panic or fatal error in
 // one of them ends the test binary, which the driver reports as a crash of the agent.
 func TestVerifC07(t *testing.T) {
+	defer func() { *shimPath, *shimWebsockets, *forceHTTP2 = "", false, false }()
 	out := verifOpenOut(t)
 	defer out.close()
 	addr, stop := verifStartFaultyBackend()
@@ -154,6 +155,7 @@ func TestVerifC07(t *testing.T) {
 		}
 		// one handler chain for the healthy backend, one pointing at a dead port
 		*host = addr
+		*shimPath, *shimWebsockets = sp, sp != "" // the flags, as main() has them
 		hp, err := hostProxy(context.Background(), addr, sp, sp != "", false)
 		if err != nil {
 			t.Fatal(err)
